@@ -373,6 +373,6 @@ func doReplay(path string) int {
 		}
 		return 1
 	}
-	fmt.Fprintln(realStdout, "REPLAY: nothing executable in this replay (kind=" + r.Kind + ")")
+	fmt.Fprintln(realStdout, "REPLAY: nothing executable in this replay (kind="+r.Kind+")")
 	return 1
 }
